@@ -61,7 +61,7 @@ def ns_calls(c, attr):
     return out
 
 
-def query_of(rep, idx, c):
+def query_of(rep, idx, c, _depth=0):
     """The availability query whose failing edge raises: returns (call IR, conds) list."""
     fg = apirules.graph(idx, c.fi)
     g = fg.g
@@ -80,7 +80,50 @@ def query_of(rep, idx, c):
         fail_succ = [m for m, lab in g.succ[n.id] if lab == fail]
         raises = bool(fail_succ) and g.exit.id not in g.reachable(fail_succ)
         out.append((n, calls[0], raises))
+    if not out and _depth == 0:
+        # the query may live in a private helper of the same class that raises on its failing edge: the statement calling
+        # the helper then plays the part of the test (it either raises or falls through)
+        for n in g.nodes:
+            if n.kind != "stmt" or not isinstance(n.ast, ast.Expr) or not isinstance(n.ast.value, ast.Call):
+                continue
+            f = n.ast.value.func
+            if not (isinstance(f, ast.Attribute) and isinstance(f.value, ast.Name) and f.value.id == "self" and f.attr.startswith("_")):
+                continue
+            h = c.fi.cls.method(f.attr) if c.fi.cls is not None else None
+            if h is None:
+                continue
+            hc = get_fn(idx, h)
+            _, sub = query_of(rep, idx, hc, _depth=1)
+            if len(sub) == 1:
+                out.append((n, sub[0][1], sub[0][2]))
+                c._helper_query = (hc, n.ast.value)
     return fg, out
+
+
+def helper_query(c, hc, call_ast):
+    """The is_available(...) call of a guard helper, with the helper's parameters replaced by the caller's (walked) arguments."""
+    hq = None
+    for cond, gen, ln in hc.t.conds:
+        for x in ir.walk(hc.norm(cond)):
+            if x[0] == 'call' and x[1] == hc.parse("self._namespace.is_available"):
+                hq = x
+    if hq is None:
+        return None
+    # the caller's call, as the walker saw it (local aliases resolved)
+    mine = [c.norm(e) for e, gen, dsl_, ln in c.t.calls if e[0] == 'call' and ln == call_ast.lineno and
+            e[1] == ('attr', ('name', 'self'), call_ast.func.attr)]
+    if len(mine) != 1:
+        return None
+    call = mine[0]
+    params = [p for p in hc.fi.params if p != "self"]
+    if len(call[2]) > len(params) or any(a[0] in ('star', 'dstar') for a in call[2]):
+        return None
+    bind = dict(zip(params, call[2]))
+    bind.update({k: v for k, v in call[3] if k in params})
+    stores = {n.id for n in ast.walk(hc.fi.node) if isinstance(n, ast.Name) and isinstance(n.ctx, ast.Store)}
+    if stores & set(bind):
+        return None
+    return c.norm(ir.subst(hq, lambda e: bind.get(e[1]) if e[0] == 'name' else None))
 
 
 def namespace_sites(rep, idx):
@@ -102,6 +145,8 @@ def namespace_sites(rep, idx):
             for x in ir.walk(c.norm(cond)):
                 if x[0] == 'call' and x[1] == c.parse("self._namespace.is_available"):
                     q = x
+        if q is None and getattr(c, "_helper_query", None) is not None:
+            q = helper_query(c, *c._helper_query)
         if q is None:
             rep.unk("C18.1", site, "availability query arguments", "cannot recover the query symbolically")
             continue
@@ -246,25 +291,41 @@ def is_available(rep, idx):
     # ---- C18.4 monotone verdict ---------------------------------------------------------------------------------
     rets = [n for n in own_walk(fi.node) if isinstance(n, ast.Return) and n.value is not None]
     flag = None
+    start, later = False, True
     if len(rets) == 1 and isinstance(rets[0].value, ast.UnaryOp) and isinstance(rets[0].value.op, ast.Not) and \
             isinstance(rets[0].value.operand, ast.Name):
         flag = rets[0].value.operand.id
-    rep.check(flag is not None, "C18.4", site, "the verdict is `not <conflict flag>` and there is no early return",
+    elif len(rets) == 1 and isinstance(rets[0].value, ast.Name):
+        flag = rets[0].value.id                         # an availability flag: starts True, only ever cleared
+        start, later = True, False
+    rep.check(flag is not None, "C18.4", site, "the verdict is `not <conflict flag>` (or an availability flag) and there is no early return",
               f"returns: {[ast.unparse(r.value) for r in rets]}")
     if flag:
         stores = [n for n in own_walk(fi.node) if isinstance(n, (ast.Assign, ast.AugAssign)) and
                   any(isinstance(t, ast.Name) and t.id == flag for t in (n.targets if isinstance(n, ast.Assign) else [n.target]))]
         init = [s for s in stores if not any(isinstance(a, (ast.For, ast.While)) for a in ancestors(s))]
         inner = [s for s in stores if s not in init]
-        ok_init = len(init) == 1 and isinstance(init[0], ast.Assign) and isinstance(init[0].value, ast.Constant) and init[0].value.value is False
-        rep.check(ok_init, "C18.4", site, "the conflict flag starts as False, once, before the loops", f"{len(init)} initialisation(s)")
-        ok_inner = bool(inner) and all(isinstance(s, ast.Assign) and isinstance(s.value, ast.Constant) and s.value.value is True for s in inner)
-        rep.check(ok_inner, "C18.4", site, "inside the loops the flag is only ever set to True (a conflict found for one name is never forgotten)",
+        ok_init = len(init) == 1 and isinstance(init[0], ast.Assign) and isinstance(init[0].value, ast.Constant) and init[0].value.value is start
+        rep.check(ok_init, "C18.4", site, f"the verdict flag starts as {start}, once, before the loops", f"{len(init)} initialisation(s)")
+        ok_inner = bool(inner) and all(isinstance(s, ast.Assign) and isinstance(s.value, ast.Constant) and s.value.value is later for s in inner)
+        rep.check(ok_inner, "C18.4", site, f"inside the loops the flag is only ever set to {later} (a conflict found for one name is never forgotten)",
                   f"assignments in loops: {[ast.unparse(s) for s in inner]}")
-    prefix_idiom(rep, fi, flag, idx)
+    prefix_idiom(rep, fi, flag, idx, later)
 
 
-def prefix_idiom(rep, fi, flag, idx=None):
+def names_nonempty(idx):
+    """MemoryMap.Name.__new__ raises on an empty tuple (a test of len(name) == 0 / not name on a raising branch)."""
+    fi = idx.find_func("MemoryMap.Name.__new__")
+    for n in ast.walk(fi.node):
+        if isinstance(n, ast.If) and any(isinstance(s, ast.Raise) for s in n.body):
+            t = ir.norm(ir.from_ast(n.test, {}))
+            for x in ir.walk(t):
+                if x == ir.norm(ir.parse("len(name) == 0")) or x == ir.norm(ir.parse("not name")) or x == ir.norm(ir.parse("len(name) < 1")):
+                    return True
+    return False
+
+
+def prefix_idiom(rep, fi, flag, idx=None, later=True):
     site = fi.site
     # innermost loop: enumerate over one of the two names
     loops = [n for n in ast.walk(fi.node) if isinstance(n, ast.For)]
@@ -298,6 +359,27 @@ def prefix_idiom(rep, fi, flag, idx=None):
                                         rep.ok("C18.5", site, "prefix test is all(a[i] == b[i] for i in range(min(len(a), len(b))))", ir.show(x)[:120])
                                         rep.ok("C18.5", site, "comparison length is the shorter name", ir.show(hi), nontrivial=False)
                                         return
+        # idiom (iv): all(p == q for p, q in zip(a, b)) -- zip stops at the shorter name; an empty name would conflict with
+        # everything, so the idiom is only equivalent because Name(...) refuses empty names
+        if c is not None:
+            for cond, gen, ln in c.t.conds:
+                cn = c.norm(cond)
+                for x in ir.walk(cn):
+                    if not (x[0] == 'call' and x[1] == ('name', 'all') and len(x[2]) == 1 and x[2][0][0] == 'gen' and len(x[2][0][3]) == 1):
+                        continue
+                    tgt, it, ifs = x[2][0][3][0]
+                    elt = x[2][0][2]
+                    if it[0] == 'call' and it[1] == ('name', 'zip') and len(it[2]) == 2 and it[2][0] != it[2][1] and not ifs and \
+                            tgt[0] == 'tuple' and len(tgt[1]) == 2 and elt == ir.norm(('cmp', '==', tgt[1][0], tgt[1][1])):
+                        nonempty = names_nonempty(idx)
+                        if nonempty:
+                            rep.ok("C18.5", site, "prefix test is all(p == q for p, q in zip(a, b)); names are never empty (Name refuses len 0)",
+                                   ir.show(x)[:120])
+                            rep.ok("C18.5", site, "comparison length is the shorter name", "zip() stops at the shorter operand", nontrivial=False)
+                        else:
+                            rep.bad("C18.5", site, "prefix test all(... zip(a, b))", "an empty name conflicts with every name under this test, and "
+                                    "MemoryMap.Name does not refuse empty tuples")
+                        return
         if c is not None:
             for cond, gen, ln in c.t.conds:
                 cn = c.norm(cond)
@@ -358,7 +440,7 @@ def prefix_idiom(rep, fi, flag, idx=None):
     t2 = ir.norm(ir.from_ast(second.test, {}))
     want = ir.norm(ir.parse(f"{iname} == min(len({A}), len({B})) - 1"))
     sets = any(isinstance(s, ast.Assign) and any(isinstance(t, ast.Name) and t.id == flag for t in s.targets) and
-               isinstance(s.value, ast.Constant) and s.value.value is True for s in ast.walk(second))
+               isinstance(s.value, ast.Constant) and s.value.value is later for s in ast.walk(second))
     if t2 == want and sets:
         rep.ok("C18.5", site, "conflict is declared when the index reaches min(len(a), len(b)) - 1 with all parts equal so far",
                ast.unparse(second.test))
@@ -412,6 +494,13 @@ def name_ordering(rep, idx):
                         rep.bad("C18.7", f.site, what, "no key: tuples with an integer part in one name and a string part in another cannot be "
                                 "ordered (TypeError), so a legal name is refused with an internal error", line=x.lineno)
                         continue
+                    if isinstance(key, ast.Name):
+                        # a named key function: module-level or local def with one parameter and a single return
+                        defs = [y for y in ast.walk(f.module.tree) if isinstance(y, ast.FunctionDef) and y.name == key.id]
+                        if len(defs) == 1 and len(defs[0].args.args) == 1:
+                            body = [s for s in defs[0].body if not (isinstance(s, ast.Expr) and isinstance(s.value, ast.Constant))]
+                            if len(body) == 1 and isinstance(body[0], ast.Return) and body[0].value is not None:
+                                key = ast.Lambda(args=defs[0].args, body=body[0].value)
                     if isinstance(key, ast.Lambda) and len(key.args.args) == 1:
                         p_ = key.args.args[0].arg
                         raw = [y for y in ast.walk(key.body) if isinstance(y, ast.Name) and y.id == p_]
